@@ -58,6 +58,7 @@ type Spec struct {
 	Assumptions []string `json:"assumptions"`
 	Out         []string `json:"outside_claim"`
 	Units       []string `json:"units"`
+	Tags        string   `json:"tags"`
 }
 
 type KnownFinding struct {
@@ -179,6 +180,7 @@ func cmdRun(args []string) int {
 			open[k.ID] = true
 		}
 	}
+	sx.BuildTags = spec.Tags
 	eng, err := sx.Load(repoDir, filepath.Join(verifDir, "harness"), spec.Packages)
 	if err != nil {
 		fmt.Printf("INCONCLUSIVE property=%s harness/load error (harness out of date or tree does not type-check): %v\n", prop, err)
@@ -405,6 +407,7 @@ func runOb(eng *sx.Engine, o ObSpec, tier string, open map[string]bool, verbose 
 	x.Cfg.NoLemmas = o.NoLemmas
 	x.Cfg.AssertSolver = o.AssertSolver
 	x.Cfg.AssertTimeoutMs = to
+	x.Cfg.BMCTimeoutMs = to
 	budget := 25 * time.Minute
 	if tier == "thorough" {
 		budget = 3 * time.Hour
@@ -616,6 +619,9 @@ func writeReplayDir(eng *sx.Engine, dir string, o ObSpec, v sx.Violation, open m
 		"Msg": v.Msg, "Kind": v.Kind, "Where": v.Where, "Params": params}
 	data, _ := json.MarshalIndent(m, "", " ")
 	os.WriteFile(filepath.Join(dir, "cex.json"), data, 0o644)
+	if len(v.Trace) > 0 {
+		os.WriteFile(filepath.Join(dir, "trace.txt"), []byte(strings.Join(v.Trace, "\n")+"\n"), 0o644)
+	}
 }
 
 // runReplay builds an overlay with the harness files, the native shim and a test that
